@@ -330,6 +330,43 @@ def _stress(ctx, res, base, ids):
     res.notes.append(f"multi-process stress (supporting evidence): {len(procs)} processes, {bad} bad outcomes")
 
 
+MIXTURE = os.path.join(os.path.dirname(os.path.dirname(os.path.abspath(__file__))), "c11_mixture.py")
+
+
+def _mixture_probe(ctx, res, thorough):
+    """"Concurrent writers of one entry leave one complete result, never a mixture" — native probe, no model: writers
+    whose (individually valid) results carry their own tag store ONE entry while one of them is parked twice inside its
+    dump; every value handed out must consist of the parts of one computation.  Thread names equal / different (Python
+    does not require them to be unique), 2-3 writers, compressed or not."""
+    rng = ctx.rng("mixture")
+    confs = [(["worker", "worker"], False), (["Thread-1", "Thread-2"], False), (["w", "w", "w"], False), (["worker", "worker"], True)]
+    if thorough:
+        confs += [([rng.choice(["a", "b"]) for _ in range(rng.choice([2, 3]))], rng.random() < 0.3) for _ in range(12)]
+    env = dict(os.environ, PYTHONPATH=str(core.REPO))
+    for names, compress in confs:
+        n_items = rng.choice([6000, 30000])
+        g1 = rng.randrange(1, n_items // 3)
+        g2 = rng.randrange(n_items // 2, n_items - 1)
+        spec = dict(n_items=n_items, gates=[g1, g2], names=names, compress=compress, scratch=str(ctx.scratch))
+        case = dict(kind="mixture-probe", **{k: v for k, v in spec.items() if k != "scratch"})
+        try:
+            p = subprocess.run([core.PY, MIXTURE, json.dumps(spec)], env=env, capture_output=True, text=True, timeout=200)
+            out = json.loads(p.stdout.strip().splitlines()[-1])
+        except (subprocess.TimeoutExpired, ValueError, IndexError) as e:
+            res.fail("mixture-probe:did-not-finish", case, repr(e)[:300])
+            continue
+        res.evaluations += 1
+        res.count("mixture-probe-runs")
+        res.nontrivial.add(("mixture", tuple(names), compress, n_items, g1, g2))
+        if out["errors"]:
+            who = out["errors"][0]
+            res.fail("concurrent-writers:" + ("raises:" + who[1] if who[0] != "harness" else "stuck"), case, out)
+            continue
+        vals = list(out["writers"].values()) + [out["reader"], out["final"]]
+        if any(v is None or len(v) != 1 for v in vals):
+            res.fail("concurrent-writers:entry-is-a-mixture-of-results", case, out)
+
+
 def _explore(ctx, scale=1):
     res = Result()
     res.rule = ("one case = (scenario, schedule); schedules: single pre-emption at every tracked line of a participant "
@@ -428,6 +465,7 @@ def _explore(ctx, scale=1):
     if reqs:
         for (rec, name), rep in zip(pend, ctx.driver().run(reqs)):
             _compare(res, rec, name, rep)
+    _mixture_probe(ctx, res, thorough)
     if thorough:
         _stress(ctx, res, base, ids)
     res.assumptions = ["threads of one process stand for processes (own function object, Memory object, temporary suffix)",
